@@ -685,14 +685,14 @@ def _reduce_add_int(ctx):
 
 @row("reduce_add", "B", "S", types=FLOAT_TYPES, prop="C09")
 def _reduce_add_float(ctx):
-    # exactness clause of the statement: when every partial sum is representable (here: integer lanes of magnitude < 2^10), the result
+    # exactness clause of the statement: when every partial sum is representable (here: integer lanes of magnitude <= 8), the result
     # is the exact sum whatever the association order -- a skipped or doubled lane changes it
     x = ctx.args[0]
     R = ctx.ret = Arg("S", ctx.tid, None, scalar="__CPROVER_return_value")
     W = ctx.w
     F = lambda i: "U2F%d(%s)" % (W, x.lane(i))
     for i in range(ctx.n):
-        ctx.requires.append("(%s >= -1024.0 && %s <= 1024.0 && %s == (f%d)(s32)%s)" % (F(i), F(i), F(i), W, F(i)))
+        ctx.requires.append("(%s >= -8.0 && %s <= 8.0 && %s == (f%d)(s32)%s)" % (F(i), F(i), F(i), W, F(i)))
     ctx.ensures.append("(__CPROVER_return_value == (f%d)(%s))" % (W, " + ".join("(s32)%s" % F(i) for i in range(ctx.n))))
     ctx.uses_float = True
 
